@@ -160,10 +160,45 @@ func formatChunkedString(chunk, indent string) string {
 	defer bufferPool.Put(buf)
 
 	buf.Reset()
+	var delimiter string
+	inLongString := false
 	for line := range strings.SplitSeq(chunk, "\n") {
-		buf.WriteString(indent + strings.TrimSpace(line) + "\n")
+		// Lines that continue a long string literal are a part of its content, must not be re-indented
+		if inLongString {
+			buf.WriteString(line + "\n")
+		} else {
+			buf.WriteString(indent + strings.TrimSpace(line) + "\n")
+		}
+		inLongString, delimiter = longStringContinues(line, inLongString, delimiter)
 	}
 	return buf.String()
+}
+
+// longStringContinues reports whether a long string literal like {"..."} or {DELIMITER"..."DELIMITER} is still open at the end of the line
+func longStringContinues(line string, open bool, delimiter string) (bool, string) {
+	for {
+		if open {
+			idx := strings.Index(line, `"`+delimiter+"}")
+			if idx < 0 {
+				return true, delimiter
+			}
+			line = line[idx+len(delimiter)+2:]
+			open = false
+			continue
+		}
+		idx := strings.IndexByte(line, '{')
+		if idx < 0 {
+			return false, ""
+		}
+		n := longStringOpen(line[idx+1:])
+		if n < 0 {
+			line = line[idx+1:]
+			continue
+		}
+		delimiter = line[idx+1 : idx+1+n]
+		line = line[idx+n+2:]
+		open = true
+	}
 }
 
 // Format multiple line chunk string with specified indent preserving leading spaces.
@@ -172,8 +207,15 @@ func formatChunkedStringPreserveIndent(chunk, indent string) string {
 	defer bufferPool.Put(buf)
 
 	buf.Reset()
+	var delimiter string
+	inLongString := false
 	for line := range strings.SplitSeq(chunk, "\n") {
-		buf.WriteString(indent + line + "\n")
+		if inLongString {
+			buf.WriteString(line + "\n")
+		} else {
+			buf.WriteString(indent + line + "\n")
+		}
+		inLongString, delimiter = longStringContinues(line, inLongString, delimiter)
 	}
 	return buf.String()
 }
